@@ -201,6 +201,9 @@ func Explore(w *World, h *Harness, workers int) *Result {
 				pr := RunPath(w, h, prefix, procs, nil, wantSample)
 				rmu.Lock()
 				res.Paths++
+				if debugProgress {
+					fmt.Printf("path %d: end=%s %s log=%v steps=%d feasQ=%d oblQ=%d solver=%.2fs uncertain=%v forks=%d\n", res.Paths, pr.End, firstLine(pr.EndMsg), pr.Log, pr.Steps, pr.FeasQ, pr.OblQ, pr.SolverTime.Seconds(), pr.Uncertain, len(pr.Forks))
+				}
 				switch pr.End {
 				case "ok":
 					res.Completed++
